@@ -95,6 +95,9 @@ func execC05(r *sim.Run) {
 		case 3:
 			fut.Foreach(func(v int) { record(fmt.Sprintf("S(%d)", v)) }, ctx...)
 		}
+		if cb.count > 0 {
+			r.Probe("callback-already-ran-when-its-registration-returned")
+		}
 	}
 	newCb := func(who string) *c05cb {
 		cb := &c05cb{id: len(cbs), kind: r.Choose(4, "cbkind"), exec: r.Choose(exKinds, "cbexec"), who: who}
@@ -287,6 +290,10 @@ func c05Check(r *sim.Run, p fp.Promise[int], cbs []*c05cb, comps []*c05comp, obs
 			}
 		}
 		return
+	}
+	if phase == "phase1" && len(comps) >= 2 {
+		r.Probe("runs-with-racing-completers")
+		r.ProbeN("completion-calls-that-lost-the-race", len(comps)-winners)
 	}
 	if winners != 1 {
 		r.Violate("single-assignment", "%s: %d of %d completion calls returned true (want exactly 1)", phase, winners, len(comps))
